@@ -3,6 +3,7 @@ package interp
 import (
 	"go/token"
 	"go/types"
+	"regexp"
 	"strings"
 
 	"golang.org/x/tools/go/ssa"
@@ -256,6 +257,61 @@ func init() {
 	}
 	externals["regexp.Compile"] = func(fr *frame, a []value) value {
 		return tuple{externals["regexp.MustCompile"](fr, a), iface{}}
+	}
+	// Replace*/Find* on concrete subjects with a concrete pattern: the real regexp is run by the
+	// engine natively; otherwise UNSUPPORTED (no harness needs it symbolically).
+	reNative := func(fr *frame, a []value) (*regexp.Regexp, bool) {
+		h := fr.i.regexes[a[0].(*value)]
+		if h == nil {
+			return nil, false
+		}
+		ps, ok := h.pattern.(string)
+		if !ok {
+			return nil, false
+		}
+		re, err := regexp.Compile(ps)
+		return re, err == nil
+	}
+	concBytes := func(v value) ([]byte, bool) {
+		if v == nil {
+			return nil, true
+		}
+		var bs []value
+		if isString(v) {
+			bs = strBytes(v)
+		} else {
+			bs, _ = v.([]value)
+		}
+		out := make([]byte, len(bs))
+		for k, b := range bs {
+			cb, ok := b.(byte)
+			if !ok {
+				return nil, false
+			}
+			out[k] = cb
+		}
+		return out, true
+	}
+	externals["(*regexp.Regexp).ReplaceAllLiteral"] = func(fr *frame, a []value) value {
+		re, ok := reNative(fr, a)
+		src, ok1 := concBytes(a[1])
+		repl, ok2 := concBytes(a[2])
+		if !ok || !ok1 || !ok2 {
+			// symbolic subject: contract stub - some byte string (here: the input unchanged)
+			fr.i.ctx.opaqueUsed = true
+			return a[1]
+		}
+		return strBytes(string(re.ReplaceAllLiteral(src, repl)))
+	}
+	externals["(*regexp.Regexp).ReplaceAllString"] = func(fr *frame, a []value) value {
+		re, ok := reNative(fr, a)
+		src, ok1 := concBytes(a[1])
+		repl, ok2 := concBytes(a[2])
+		if !ok || !ok1 || !ok2 {
+			fr.i.ctx.opaqueUsed = true
+			return a[1]
+		}
+		return re.ReplaceAllString(string(src), string(repl))
 	}
 	externals["(*regexp.Regexp).MatchString"] = func(fr *frame, a []value) value {
 		p := a[0].(*value)
